@@ -76,18 +76,19 @@ PROPS = {
  },
  "C08": {
   "module": "Zog.Props.C08",
-  "theorems": [P + "C08." + t for t in ["every_interleaving_owned", "flatten_disjoint", "concurrent_calls_hold_disjoint_objects", "shared_schema_only_read", "closures_keep_no_state", "result_independent_of_recycled_contents"]],
+  "theorems": [P + "C08." + t for t in ["every_interleaving_owned", "flatten_disjoint", "concurrent_calls_hold_disjoint_objects", "shared_schema_only_read", "closures_keep_no_state", "result_independent_of_recycled_contents", "helpers_read_before_free", "helpers_read_only_owned_objects", "free_then_read_reads_pooled_objects"]],
   "streams": [st("conc", 30000, 2000000), st("pool", 300, 10000)],
   "trusted_base": ["PARTIAL: schedule-independence is proved in the ownership / interleaving model (every interleaving of acquire/release steps is an op list covered by the C07 invariant); data-race freedom in the sense of the Go memory model is NOT expressible in the model — the -race stress stream is supporting evidence for the model's assumptions",
                    "regenerated (go/ast): Gen.schemaWrites = [] (no assignment, inc/dec or in-place mutator call — Store, Swap, LoadOrStore, Do, ... — rooted at a schema receiver or package variable inside process/validate/Parse/Validate or any function of the schema files reachable from them)",
                    "regenerated (go/ast): Gen.closureWrites = [] (no function literal of the root, internals or conf packages that outlives its builder assigns to a captured or package-level variable)",
+                   "regenerated (go/ast): Gen.helpersReadBeforeFree (in Issues.SanitizeMapAndCollect / SanitizeListAndCollect every Sanitize* call ends before the first Collect* call begins)",
                    "assumed: sync.Pool's own atomicity; conf.IssueFormatter and conf.Coercers are not reassigned while calls are running"],
   "assumptions": ["global configuration (conf.IssueFormatter, conf.Coercers, i18n) is set up before schemas are used concurrently"],
  },
  "C09": {
   "module": "Zog.Props.C09",
   "theorems": READONLY + POOLED + COMMON + [P + "C09." + t for t in ["visit_order_is_permutation", "visit_order_same_length", "visit_order_mem", "engine_is_spec_for_every_order", "single_field_order_independent", "C09_partial_spec", "C09_partial", "success_order_independent", "success_order_independent_all", "full_statement_false", "message_independent_of_param_order"]] + ["Zog.Spec.proc_success_order_indep", "Zog.Spec.fieldLoop_perm_clean"],
-  "streams": [st("order", 2500, 60000), eng(2000, 60000)],
+  "streams": [st("order", 2500, 60000), eng(2000, 60000), st("msg", 1, 1)],
   "trusted_base": ENGINE_TB, "assumptions": ENGINE_ASSUME,
  },
  "C12": {
